@@ -181,6 +181,17 @@ let dispatch cmd r =
       out_list (List.concat_map (fun q -> let q = qred q in [q.qnum; Zpos q.qden]) (zoom1 order mode l nout))
   | "spline_weights" -> let order = next_z r in let x = next_q r in
       out_list (List.concat_map (fun q -> let q = qred q in [q.qnum; Zpos q.qden]) (spline_weights order x))
+  | "cooc" -> let sym = next_int r = 1 in let m = next_z r in let f = next_arr r in let delta = next_list r in
+      out_list (if sym then cooc_sym f delta m else cooc f delta m)
+  | "lbp_map" -> let p = next_z r in let l = next_list r in out_list (List.map (fun v -> lbp_map v p) l)
+  | "integral" -> let f = next_arr r in
+      let w = (match f.shape with [_; b] -> int_of_string (string_of_z b) | _ -> failwith "2-D expected") in
+      let rec rows l = (match l with [] -> [] | _ ->
+          let rec take n l = if n = 0 then ([], l) else (match l with x :: t -> let (a, b) = take (n - 1) t in (x :: a, b) | [] -> ([], [])) in
+          let (a, b) = take w l in a :: rows b) in
+      out_list (List.concat (integral (rows f.data)))
+  | "moments" -> let f = next_arr r in let p0 = next_z r in let p1 = next_z r in let c0 = next_z r in let c1 = next_z r in
+      out_list [moments f p0 p1 c0 c1]
   | _ -> failwith ("unknown command " ^ cmd)
 
 let () =
